@@ -13,6 +13,13 @@ R-PUBSYM    a declaration is marked "in the public symbol table" only when a sym
             set_symbol(<non-null>) on the same receiver, or a dominating test).
 R-EXPORTEDPRED the symbol the DWARF reader attaches comes from {function,variable}_symbol_is_exported, which hand back a
             symbol only if it is public and of the right kind (world interpretation: nil in every other world).
+R-OWNSYMKEY the id -> declarations maps of exported_decls_builder::priv (id_fns_map / id_var_map) answer "which
+            declarations are attached to the symbol of this id" - the DWARF reader asks them
+            (symbol_already_belongs_to_a_function) before attaching a symbol.  A declaration is therefore registered
+            only under ids of its own (its id, its own symbol's id): no key of an insertion derives from
+            get_next_alias().  Registering it under the ids of the *other* symbols of the alias ring makes every
+            symbol that shares an address with an attached one look taken: folded functions that have debug info of
+            their own lose their declaration and their symbols are listed as unreferenced.
 R-UNREF     corpus::priv::get_unreferenced_{function,variable}_symbols compute the complement: the referenced set is
             fed from every exported declaration's symbol *and all its aliases*, under the same key (accessor) that the
             lookup uses; the symtab is walked with the same filter as the symbol table of the corpus (C18's
@@ -31,12 +38,13 @@ def run(ctx):
     ctx.clause = ("a declaration is exposed in the interface only with a public symbol attached, and the list of symbols "
                   "not referenced by debug info is the complement, over the corpus' own symbol-table filter, of the symbols "
                   "(and aliases) of the exposed declarations")
-    ctx.rules = ["R-EXPGATE", "R-PUBSYM", "R-EXPORTEDPRED", "R-UNREF"]
+    ctx.rules = ["R-EXPGATE", "R-PUBSYM", "R-EXPORTEDPRED", "R-UNREF", "R-OWNSYMKEY"]
     P = ctx.program(UNITS)
     check_expgate(ctx, P)
     check_pubsym(ctx, P)
     check_exportedpred(ctx, P)
     check_unref(ctx, P)
+    check_ownsymkey(ctx, P)
     ctx.assume("which declaration the DWARF (or ABIXML) describes for which address is a runtime association and is not "
                "decided; src/abg-ctf-reader.cc is not part of this build and is not analysed")
 
@@ -344,3 +352,60 @@ def check_unref(ctx, P):
                "push_back unreachable when the lookup finds the symbol" if not bad else
                "a symbol found in the referenced set is still pushed: it is attached to a declaration and listed as unreferenced")
     ctx.floor("R-UNREF", "obligations over the two complement functions", n, 10)
+
+
+
+# ------------------------------------------------------------------------------------------------ R-OWNSYMKEY
+def check_ownsymkey(ctx, P):
+    MAPS = ("id_fns_map", "id_fns_map_", "id_var_map", "id_var_map_")
+    n = 0
+    for f in sorted(P.all_funcs(), key=lambda x: (x.file, x.l0)):
+        if f.dep or f.cfg() is None or "exported_decls_builder" not in f.q:
+            continue
+
+        def is_map(e):
+            e = strip_casts(e)
+            return e is not None and e["k"] in ("CXXMemberCallExpr", "MemberExpr") and (f.decl(e) or {}).get("n") in MAPS
+        keys = []
+        for x in f.nodes():
+            if x["k"] == "CXXOperatorCallExpr" and x.get("op") == "[]" and is_map(call_args(x)[0]):
+                # only insertions: the subscript is the target of an assignment
+                p = f.parent(x)
+                while p is not None and p["k"] in ("ImplicitCastExpr", "ParenExpr", "MaterializeTemporaryExpr"):
+                    p = f.parent(p)
+                if p is not None and p["k"] in ("CXXOperatorCallExpr", "BinaryOperator") and p.get("op") == "=":
+                    keys.append((x, call_args(x)[1]))
+            if x["k"] == "CXXMemberCallExpr" and (f.decl(x) or {}).get("n") in ("insert", "emplace") and is_map(member_call_object(x)) and call_args(x):
+                keys.append((x, call_args(x)[0]))
+        if not keys:
+            continue
+        ctx.analysed(f)
+        # flow-insensitive: every expression ever assigned to a local
+        srcs = {}
+        for x in f.nodes():
+            if x["k"] == "VarDecl" and x.get("c") and x["c"][0] is not None:
+                srcs.setdefault(x.get("d"), []).append(x["c"][0])
+            if x["k"] in ("CXXOperatorCallExpr", "BinaryOperator") and x.get("op") == "=":
+                a = call_args(x) if x["k"] == "CXXOperatorCallExpr" else x["c"]
+                l = strip_casts(a[0])
+                if l is not None and l["k"] == "DeclRefExpr":
+                    srcs.setdefault(l.get("d"), []).append(a[1])
+
+        def from_alias(e, seen):
+            for y in walk(e):
+                if y["k"] == "CXXMemberCallExpr" and (f.decl(y) or {}).get("n") == "get_next_alias":
+                    return True
+                if y["k"] == "DeclRefExpr" and y.get("d") in srcs and y.get("d") not in seen:
+                    seen.add(y.get("d"))
+                    if any(from_alias(s_, seen) for s_ in srcs[y["d"]]):
+                        return True
+            return False
+        for i, (x, k) in enumerate(keys):
+            n += 1
+            bad = from_alias(k, set())
+            from rules.null_rules import short
+            ctx.ob("R-OWNSYMKEY", "%s: insertion #%d is keyed by an id of the declaration itself" % (short(f), i + 1), not bad, f.loc(x),
+                   "key `%s`" % expr_str(f, k)[:40] if not bad else
+                   "the key `%s` can hold the id of another symbol of the alias ring (it derives from get_next_alias()): every symbol "
+                   "that shares an address with an attached one then counts as already attached" % expr_str(f, k)[:40])
+    ctx.floor("R-OWNSYMKEY", "insertions into the id -> declarations maps", n, 2)
